@@ -271,6 +271,15 @@ var ValidProfiles = []Profile{
 		{`x: name ...F`, `...F x: name`, `x: age ...F`, `x: nick`, `...G x: age`, `...F`, `x: name ...G`},
 		{`x: nick`, `x: age`, `x: name`, `id`, `x: nick friend { x: name }`},
 	}, Optional: []string{"F", "G"}},
+	// fields and fragments of one selection set, where comparing the fields with a fragment's fields descends into
+	// sub selections that spread further fragments before the next spread of the selection set is looked at
+	{Name: "overlap-spread-after-nested", Template: `query Q { person { §0 §1 } } fragment F on Person { §2 } fragment G on Person { §3 } fragment H on Person { §4 }`, Holes: [][]string{
+		{`x: name friend { ...H }`, `friend { ...H }`, `x: name friend { ...G }`, `x: name`},
+		{`...F ...H`, `...H ...F`, `...F ...G`, `...G ...F`, `...F`, `...F ...G ...H`},
+		{`friend { ...H }`, `friend { ...H } ...G`, `friend { ...G }`, `id`},
+		{`x: age`, `friend { ...H } ...F`, `x: age ...F`, `id`},
+		{`x: nick`, `id`, `x: name`},
+	}, Optional: []string{"F", "G", "H"}},
 	{Name: "multi-conflict", Template: `query Q { pet { §0 §1 §2 } }`, Holes: [][]string{
 		{`a: name a: nick`, `a: name`, `a: id a: kind`},
 		{`b: id b: kind`, `b: id`, `b: name b: tags`},
